@@ -117,7 +117,33 @@ extern const op_t ops_md[];
 extern const op_t ops_prog[];
 #endif
 
+/* extension slots: -DORACLE_EXTRA1=ops_xyz links the table `const op_t ops_xyz[]` of an additional ops_*.c file */
+#ifdef ORACLE_EXTRA1
+extern const op_t ORACLE_EXTRA1[];
+#endif
+#ifdef ORACLE_EXTRA2
+extern const op_t ORACLE_EXTRA2[];
+#endif
+#ifdef ORACLE_EXTRA3
+extern const op_t ORACLE_EXTRA3[];
+#endif
+#ifdef ORACLE_EXTRA4
+extern const op_t ORACLE_EXTRA4[];
+#endif
+
 static const op_t *tables[] = {
+#ifdef ORACLE_EXTRA1
+	ORACLE_EXTRA1,
+#endif
+#ifdef ORACLE_EXTRA2
+	ORACLE_EXTRA2,
+#endif
+#ifdef ORACLE_EXTRA3
+	ORACLE_EXTRA3,
+#endif
+#ifdef ORACLE_EXTRA4
+	ORACLE_EXTRA4,
+#endif
 	ops_bn,
 #if defined(ORACLE_MD)
 	ops_md,
